@@ -14,6 +14,7 @@ RULE = ("vectors of length 0-60 of eight classes (normal, integer with ties, con
         "Where the definition is undefined the result must be NaN or non-finite. signature = (metric, aggregator, vector "
         "class, entry point); non-trivial = length >= 2 with a defined value, or an undefined case.")
 RULE += " " + 'Vector class offset (forecast = obs + non-binary constant); irrelevant -r/-b on deterministic scores; sub-percent quantile aggregator levels.'
+RULE += " " + 'Rounds 9-10: metrics that do not support -agg are also run with an (ignored) -agg; vector classes offset and tiny (values of order 1e-5 with non-zero variance).'
 ASSUMPTIONS = ["population (1/N) variance in stderror/std, as verif documents 'standard deviation' without Bessel correction",
                "rank correlation = Pearson correlation of mid-ranks; Kendall = tau-b"]
 REQUIRED_COUNTERS = ["vector_evals", "perfect_checks", "never_better_checks", "data_evals", "csv_values", "undefined_checks"]
